@@ -102,6 +102,9 @@ def make_any(rng: random.Random):
         if h.keep_missed and rng.random() < 0.3 and not h.is_adaptive() and np.dtype(h.dtype).kind == "f":
             h.inner_missed = rng.choice([1.0, 2.5])
             flags["missed"] = True
+        if h.shape[0] >= 2 and rng.random() < 0.15 and all(np.array_equal(np.asarray(h.bins)[1:, 0], np.asarray(h.bins)[:-1, 1]) for _ in (0,)):
+            # bins made by merging (their flags and edges are computed, not given)
+            h = h.merge_bins(rng.choice([1, 2, 3]))
         if h.shape[0] >= 2 and not h.is_adaptive() and rng.random() < 0.1:
             # a selection that drops the last bin: its bins are right-open, whatever the class of binning they came from
             h = h[0 : h.shape[0] - 1]
